@@ -8,6 +8,7 @@ import (
 	"fmt"
 	"io"
 	"math/rand"
+	"sort"
 	"testing"
 	"testing/iotest"
 )
@@ -57,6 +58,21 @@ func readersFor(data []byte, rng *rand.Rand) map[string]func() io.Reader {
 	}
 }
 
+// storedString: everything a MapPollard stores, in a canonical order.
+func storedString(m *MapPollard) string {
+	var lines []string
+	m.Nodes.ForEach(func(pos uint64, l Leaf) error {
+		lines = append(lines, fmt.Sprintf("node %d %x %v", pos, l.Hash[:4], l.Remember))
+		return nil
+	})
+	m.CachedLeaves.ForEach(func(h Hash, pos uint64) error {
+		lines = append(lines, fmt.Sprintf("cached %x %d", h[:4], pos))
+		return nil
+	})
+	sort.Strings(lines)
+	return fmt.Sprintf("n=%d rows=%d %v", m.NumLeaves, m.TotalRows, lines)
+}
+
 // viewString: the observable state of a forest (C06's full view), as a comparable string.
 func viewString(u Utreexo, spec *specForest) string {
 	rows := specTreeRows(spec.n)
@@ -84,7 +100,8 @@ func viewString(u Utreexo, spec *specForest) string {
 // byte counts == bytes consumed/produced; SerializeSize == bytes produced.
 func TestRAC_C13(t *testing.T) {
 	res := newRacResult("C13")
-	cfgs := []mapCfg{{Full: true, TotalRows: 63}, {Full: true, TotalRows: 0}, {Full: false, TotalRows: 63}, {Full: false, TotalRows: 3}}
+	cfgs := []mapCfg{{Full: true, TotalRows: 63}, {Full: true, TotalRows: 0}, {Full: false, TotalRows: 63}, {Full: false, TotalRows: 3},
+		{Full: false, TotalRows: 63, RememberEven: true}, {Full: false, TotalRows: 0, NoRemember: true}}
 	maxLeaves, maxBlocks := 5, 3
 	if res.thorough() {
 		maxLeaves, maxBlocks = 6, 3
@@ -221,11 +238,23 @@ func TestRAC_C13(t *testing.T) {
 					res.fail("MapPollard.Read.rac.roundtrip/"+name, in("reader", name, "bytes", len(data)), fmt.Sprintf("panic=%q count=%d %s", pan, rn, got), fmt.Sprintf("count=%d %s", len(data), want))
 					continue
 				}
+				// the stored state itself (positions, hashes, remember flags, cached leaves) is restored exactly,
+				// otherwise the restored forest prunes differently later
+				res.eval("MapPollard.Read.rac.stored-state")
+				if a, b := storedString(m), storedString(&m2); a != b {
+					res.fail("MapPollard.Read.rac.stored-state", in("reader", name), b, a)
+				}
 				if nerr == nil && name == "whole" {
+					if w.cfgs[i].NoRemember || w.cfgs[i].RememberEven {
+						// light forests learn about the deletions first
+						m2.Verify(nbd.delHashes, nbd.proof, true)
+					}
 					e1 := m2.Modify(nbd.leaves, nbd.delHashes, nbd.proof)
 					res.eval("MapPollard.Read.rac.evolves")
 					if e1 != nil || !hashesEq(m2.GetRoots(), wantNext.Roots()) {
 						res.fail("MapPollard.Read.rac.evolves", in("reader", name), fmt.Sprintf("err=%v roots=%s", e1, shortHashes(m2.GetRoots())), shortHashes(wantNext.Roots()))
+					} else if w.cfgs[i].NoRemember || w.cfgs[i].RememberEven {
+						// (the undo of a light forest re-caches what Verify remembered: not comparable with the view before)
 					} else if e2 := m2.Undo(uint64(len(nbd.adds)), nbd.proof, nbd.delHashes, nbd.prevRoots); e2 != nil || viewString(&m2, w.spec) != want {
 						res.fail("MapPollard.Read.rac.evolves", in("reader", name, "step", "undo"), fmt.Sprintf("err=%v %s", e2, viewString(&m2, w.spec)), want)
 					}
